@@ -117,7 +117,18 @@ def run_fit(
         with contextlib.redirect_stdout(out), warnings.catch_warnings():
             warnings.simplefilter("ignore")
             with pre:
-                state.fit(data_in, **kwargs)
+                if tcfg.get("call_form") == "positional" and "optimizer_args" not in kwargs and "scheduler" not in kwargs:
+                    # the documented positional order: data, epochs, pos_batch_size, neg_batch_size, k, lr,
+                    # [input_bases,] progbar, starting_epoch, time, callbacks[, optimizer]
+                    pos = [data_in, kwargs["epochs"], kwargs["pos_batch_size"], kwargs["neg_batch_size"], kwargs["k"], kwargs["lr"]]
+                    if type(state).__name__ != "PositiveWaveFunction":
+                        pos.append(kwargs.get("input_bases"))
+                    pos += [False, kwargs["starting_epoch"], kwargs["time"], kwargs["callbacks"]]
+                    if "optimizer" in kwargs:
+                        pos.append(kwargs["optimizer"])
+                    state.fit(*pos)
+                else:
+                    state.fit(data_in, **kwargs)
     except SimCrash:
         info["crashed"] = True
     except Exception as exc:  # noqa: BLE001
